@@ -235,7 +235,7 @@ func c04Weights(c *ctx) {
 			}
 		}
 		tol := 1.5 / 10000
-		if minW < 1e-5 {
+		if minW < 1e-5 || k > 1000 { // (routes with more than 1000 targets keep the coarse ring: building a finer one for every added target costs too much)
 			tol = (1.5 + float64(bumped)) / 10000
 		} else if bumped > 0 {
 			c.R.Count("routes_with_sub_slot_targets_checked_strictly", 1)
